@@ -68,7 +68,7 @@ def strategy(ctx) -> st.SearchStrategy:
         "rank": st.fixed_dictionaries({
             "goals": st.integers(1, 12),
             "rows": matrix,
-            "lens": st.lists(st.integers(0, 3), min_size=64, max_size=64),
+            "lens": st.lists(st.integers(0, 3), min_size=8, max_size=8),
             "clones": st.lists(st.integers(0, 63), max_size=3),
             "pop_delta": st.integers(-3, 3),
             "pop_mode": st.sampled_from(["around-front0", "around-front0", "n", "1", "big"]),
